@@ -266,8 +266,11 @@ class ExcFlow:
             return out
         if isinstance(st, (ast.If, ast.While)):
             out = self._exprs(fn, st.test, caught, hname)
-            out |= self._block(fn, st.body, caught, hname)
-            out |= self._block(fn, st.orelse, caught, hname)
+            dead = self._dead_branch(fn, st.test) if isinstance(st, ast.If) else None
+            if dead != "true":
+                out |= self._block(fn, st.body, caught, hname)
+            if dead != "false":
+                out |= self._block(fn, st.orelse, caught, hname)
             return out
         if isinstance(st, (ast.For, ast.AsyncFor)):
             out = self._exprs(fn, st.iter, caught, hname)
@@ -281,6 +284,24 @@ class ExcFlow:
             out |= self._block(fn, st.body, caught, hname)
             return out
         return self._exprs(fn, st, caught, hname)
+
+    def _dead_branch(self, fn, test: ast.AST) -> Optional[str]:
+        """'true' / 'false' when the type-checked program shows that branch of `[not] isinstance(x, T)` cannot be taken (a defensive check that never
+        triggers: the static type of x is exactly one of the builtin classes tested for); None otherwise"""
+        neg = False
+        t = test
+        if isinstance(t, ast.UnaryOp) and isinstance(t.op, ast.Not):
+            t, neg = t.operand, True
+        if not (isinstance(t, ast.Call) and isinstance(t.func, ast.Name) and t.func.id == "isinstance" and len(t.args) == 2) or self.cg.types is None:
+            return None
+        cls = t.args[1].elts if isinstance(t.args[1], ast.Tuple) else [t.args[1]]
+        names = {f"builtins.{c.id}" for c in cls if isinstance(c, ast.Name) and c.id in ("bytes", "str", "dict", "list", "int", "tuple", "bool", "bytearray", "float")}
+        if len(names) != len(cls):
+            return None
+        td = self.cg.types.of(fn.module, t.args[0])
+        if td.any or not td.classes or getattr(td, "optional", False) or not all(c in names for c in td.classes):
+            return None
+        return "true" if neg else "false"
 
     def _handler_classes(self, fn, h: ast.ExceptHandler) -> List[str]:
         if h.type is None:
